@@ -126,6 +126,8 @@ V08(e) ==
     ELSE IF /\ cc.normalize /\ NormOpt(c) /\ (swept \/ (builtinInit /\ cc.alg \in {"parafac", "nn_parafac", "nn_parafac_hals"}))
             /\ ~(IsInt(ms.colnorm_dev) /\ ms.colnorm_dev <= NormTol)
          THEN "ColumnsNotUnitNorm"
+    ELSE IF ms.kind = "cmtf" /\ cc.normalize /\ "scale_dev" \in DOMAIN e /\ ~(IsInt(e.scale_dev) /\ e.scale_dev <= WarmTol)
+         THEN "ScaleNotCarriedByWeights"
     ELSE IF /\ ~cc.normalize /\ ms.kind \in {"cp", "cp_sparse", "parafac2", "cmtf"} /\ (swept \/ builtinInit)
             /\ ~(IsInt(ms.weights_one_dev) /\ ms.weights_one_dev = 0)
          THEN "WeightsNotAllOnes"
